@@ -269,6 +269,10 @@ var mathAxioms = map[string]string{}
 
 func (r *UnitRun) needDomain(name string) {
 	df := domainFuncs[name]
+	if strings.HasPrefix(df.smt, "math_") {
+		r.needMath(df.smt, df.args)
+		return
+	}
 	for _, d := range df.deps {
 		r.needDomain(d)
 	}
@@ -529,6 +533,10 @@ func (r *UnitRun) applyContractSelf(st *State, callee *Unit, recv *Val, args []V
 		goal := r.specBool(env, c, "requires of "+callee.Name)
 		r.oblige(st, "pre", fmt.Sprintf("%s.%d", site, i), goal, e, "precondition of "+callee.Name+": "+c.Text, c.Tags)
 	}
+	for i, c := range callee.Defined {
+		goal := r.specBool(env, c, "defined-clause of "+callee.Name)
+		r.oblige(st, "def", fmt.Sprintf("%s.%d", site, i), goal, e, "result of "+callee.Name+" is defined (finite): "+c.Text, c.Tags)
+	}
 	// ownership transfer
 	for i, p := range params {
 		if callee.Takes[p.Name] && args[i].K == KSlice {
@@ -572,6 +580,7 @@ func (r *UnitRun) applyContractSelf(st *State, callee *Unit, recv *Val, args []V
 			st.markFresh(v.T)
 		}
 		bound[rp.Name] = v
+		bound[fmt.Sprintf("res%d", len(outs))] = v
 		outs = append(outs, v)
 	}
 	if len(results) > 0 {
